@@ -13,12 +13,16 @@ ENV = dict(os.environ, GOFLAGS="-mod=mod", GOPROXY="off", GOSUMDB="off", GOTOOLC
 def sh(cmd, **kw):
     return subprocess.run(cmd, shell=True, stdout=subprocess.PIPE, stderr=subprocess.STDOUT, text=True, env=ENV, **kw)
 
+import threading
+wt_lock = threading.Lock()
+
 def run(m):
     d = tempfile.mkdtemp(prefix="mut-", dir="/tmp")
     os.rmdir(d)
     res = {"id": m["id"], "property": m["property"]}
     try:
-        r = sh(f"git -C /repo worktree add --detach {d} HEAD")
+        with wt_lock:
+            r = sh(f"git -C /repo worktree add --detach {d} HEAD")
         if r.returncode != 0:
             res["status"] = "worktree failed: " + r.stdout[-300:]
             return res
@@ -45,7 +49,8 @@ def run(m):
         res["status"] = "DETECTED" if r.returncode == 1 and viol else "MISSED (exit %d): %s" % (r.returncode, r.stdout[-300:])
         return res
     finally:
-        sh(f"git -C /repo worktree remove --force {d}")
+        with wt_lock:
+            sh(f"git -C /repo worktree remove --force {d}")
         shutil.rmtree(d, ignore_errors=True)
 
 def main():
